@@ -204,6 +204,27 @@ def run(rep, tier):
                   ok="struct codes have exactly the stated byte widths (b=1, h=2, i=4, q=8)", bad="width->struct code table changed: a code whose size differs from the sample width misaligns every sample")
     rep.floor("F3-pack", 2)
 
+    rule_nearest(rep)
+    rule_seek(rep)
+    d = wav.methods.get("duration")
+    if d is not None:
+        r = [n for n in ast.walk(d.node) if isinstance(n, ast.Return)]
+        rep.check(len(r) == 1 and norm(r[0].value) in ("len(self.frames) / self.frameRate / self.sampleWidth", "len(self.frames) / self.sampleWidth / self.frameRate", "len(self.frames) / (self.frameRate * self.sampleWidth)", "len(self.frames) / (self.sampleWidth * self.frameRate)"),
+                  "F4-seek", d.short, norm(r[0].value) if r else "?", ok="bytes / width / rate = sample count / frame rate", bad="Wav.duration is not sample count / frame rate")
+    q = audio.classes.get("QueryWav")
+    if q is not None and "duration" in q.methods:
+        qd = q.methods["duration"]
+        txt = " ".join(norm(s) for s in qd.node.body)
+        rep.check("float(self.nframes) / self.frameRate" in txt or "self.nframes / self.frameRate" in txt, "F4-seek", qd.short, txt[:80], ok="frames / rate", bad="QueryWav.duration is not nframes / frameRate")
+    rep.floor("F4-seek", 4)
+
+
+
+
+def rule_nearest(rep):
+    """F1-nearest: every time->sample conversion in audio.py is round(time * frameRate)."""
+    idx = common.ctx()
+    audio = idx.module("audio")
     # ---- F1-nearest: every time->sample conversion in the module
     sites = []
     for fn in list(audio.functions.values()) + [m for c in audio.classes.values() for m in c.methods.values()]:
@@ -218,6 +239,12 @@ def run(rep, tier):
         rep.check(ok, "F1-nearest", fn.short, norm(n), ok="nearest sample to %s" % why, bad="time->sample conversion %s is not round(time * frameRate): %s (a time on sample k whose product is k-epsilon in floating point lands on sample k-1)" % (norm(n), why), loc=fn.where(n))
     rep.floor("F1-nearest", 5, "_getIndexAtTime, readFramesAtTime x2, generateSineWave, generateSilence")
 
+
+
+def rule_seek(rep):
+    """F4-seek: readFramesAtTime positions the file unconditionally before reading."""
+    idx = common.ctx()
+    audio = idx.module("audio")
     # ---- F4: readFramesAtTime always seeks, durations
     rf = audio.functions.get("readFramesAtTime")
     if rf is None:
@@ -237,16 +264,3 @@ def run(rep, tier):
                 arg = single_def(rf, arg.id) or arg
             ok, why = is_sample_count(arg, {"frameRate"})
             rep.check(ok and why == "startTime", "F4-seek", rf.short, "setpos(%s)" % norm(arg), ok="seeks to the sample nearest to startTime", bad="seek position is not round(frameRate * startTime): %s" % why)
-    d = wav.methods.get("duration")
-    if d is not None:
-        r = [n for n in ast.walk(d.node) if isinstance(n, ast.Return)]
-        rep.check(len(r) == 1 and norm(r[0].value) in ("len(self.frames) / self.frameRate / self.sampleWidth", "len(self.frames) / self.sampleWidth / self.frameRate", "len(self.frames) / (self.frameRate * self.sampleWidth)", "len(self.frames) / (self.sampleWidth * self.frameRate)"),
-                  "F4-seek", d.short, norm(r[0].value) if r else "?", ok="bytes / width / rate = sample count / frame rate", bad="Wav.duration is not sample count / frame rate")
-    q = audio.classes.get("QueryWav")
-    if q is not None and "duration" in q.methods:
-        qd = q.methods["duration"]
-        txt = " ".join(norm(s) for s in qd.node.body)
-        rep.check("float(self.nframes) / self.frameRate" in txt or "self.nframes / self.frameRate" in txt, "F4-seek", qd.short, txt[:80], ok="frames / rate", bad="QueryWav.duration is not nframes / frameRate")
-    rep.floor("F4-seek", 4)
-
-
